@@ -66,6 +66,20 @@ def run(ctx: core.Check):
             tr.ev("Format", cmd="parse", ext=ext, flag=flag, content="suit", rc=rc, written=out.exists(), same=same, tb=tb)
             ctx.count("evaluations")
             ctx.nontriv(("parse", ext, flag))
+    # parse without --output-file: the description is printed to STDOUT as YAML (with and without hierarchy expansion)
+    for hier in (False, True):
+        a = ["parse", "--input-file", d / "ref.suit"] + (["--parse-hierarchy"] if hier else [])
+        p = subprocess.run(core.cli_cmd(*a), cwd=d, env=core.cli_env(), capture_output=True, text=True)
+        try:
+            shown = yaml.safe_load(p.stdout)
+            same = (shown.get("SUIT_Envelope_Tagged") == want.get("SUIT_Envelope_Tagged")) if isinstance(shown, dict) else False
+        except Exception:
+            same = False
+        tr.begin({"cmd": "parse", "ext": "STDOUT", "hier": hier})
+        tr.ev("Format", cmd="parse", ext="yaml", flag="AUTO", content="suit", rc=p.returncode, written=bool(p.stdout.strip()), same=same,
+              tb="Traceback (most recent call last)" in p.stderr)
+        ctx.count("evaluations")
+        ctx.nontriv(("parse", "STDOUT", hier))
     # input errors
     (d / "broken.yaml").write_text("SUIT_Envelope_Tagged: [unclosed\n")
     (d / "unknown.yaml").write_text(yaml.dump({"SUIT_Envelope_Tagged": {"suit-manifest": {"no-such-key": 1}}}))
